@@ -98,7 +98,7 @@ func c18(c *Ctx) {
 				})
 				wp2 := core.CutReach(core.CutSpec{Fn: fn, From: start, Target: func(prev, bb *ssa.BasicBlock) bool { return pushes[bb] }})
 				r.Check(wp2 != nil, "R1.full-bucket", name+" goes-to-replacements", p.Pos(w.Store.Pos()),
-					"the bucket-full branch hands the newcomer to the bounded replacement push", "the bucket-full branch no longer reaches the replacement push")
+					"the bucket-full branch hands the newcomer to the bounded replacement push", "the bucket-full branch does not reach a BOUNDED replacement push: either nothing is pushed, or the push can leave more than the allowed number of replacements (growth not under len(list) < max, or an insertion not preceded by dropping the last element when len(list) >= max)")
 			}
 		}
 		if nfull == 0 {
